@@ -178,7 +178,7 @@ pub fn known_for_build(v: &Viol) -> Option<&'static str> {
     if (d == "cl22" || opts.contains("fe=1") || src.contains("(defconst ")) && code_has_gensym_atom(&code) {
         return Some("evaluator-com-leaks-let-bound-names");
     }
-    if (d == "cl23" || d == "cl23.1" || d == "cl24") && opts.contains("opt=1") && code_has_const_path_into_atom(&code) {
+    if (d == "cl23" || d == "cl23.1" || d == "cl24" || d == "strict-cl21") && opts.contains("opt=1") && code_has_const_path_into_atom(&code) {
         return Some("cl23-constant-folds-path-into-atom");
     }
     // CSE hoists a repeated partial operation above the conditions that guard it.  Excused only
